@@ -390,7 +390,7 @@ class Emitter:
                 self.process(inc, negate)
                 i += 1
             elif s.startswith('//@struct '):
-                rel, name = [x.strip() for x in s[len('//@struct '):].split('::')]
+                rel, name = [x.strip() for x in re.split(r'\s+::\s+', s[len('//@struct '):])]
                 subs = []
                 while i + 1 < len(lines) and lines[i + 1].strip().startswith('//@sub '):
                     a, b = lines[i + 1].strip()[len('//@sub '):].split(' => ', 1)
@@ -399,7 +399,7 @@ class Emitter:
                 self.emit_struct(rel, name, subs)
                 i += 1
             elif s.startswith('//@item '):
-                rel, cont, name = [x.strip() for x in s[len('//@item '):].split('::', 2)]
+                rel, cont, name = [x.strip() for x in re.split(r'\s+::\s+', s[len('//@item '):])]
                 src, it = self.source.find(rel, cont, name)
                 self.emit(widen_vis(strip_attrs(src[it['start']:it['end']])) + '\n')
                 i += 1
@@ -442,7 +442,9 @@ class Emitter:
 
     def process_fn(self, lines, i, negate):
         hdr = lines[i].strip()[len('//@fn '):]
-        parts = [x.strip() for x in hdr.split('::', 2)]
+        parts = [x.strip() for x in re.split(r'\s+::\s+', hdr)]
+        if len(parts) > 3:
+            parts = [parts[0], ' :: '.join(parts[1:-1]), parts[-1]]
         if len(parts) != 3:
             raise Lost('bad //@fn directive: ' + hdr)
         rel, cont, name = parts
